@@ -161,7 +161,7 @@ func C14(p *core.Program, r *core.Report) {
 
 	// AT: IdKeeper.data
 	g := newGuardedEngine(p)
-	n := g.checkGuarded(r, []guardedField{{routingPkg, "IdKeeper", "data", "pkg/routing.IdKeeper.mutex"}}, true)
+	n := g.checkGuarded(r, []guardedField{{routingPkg, "IdKeeper", "data", "pkg/routing.IdKeeper.mutex"}, {routingPkg, "IdKeeper", "lastUse", "pkg/routing.IdKeeper.mutex"}}, true)
 	r.Min("accesses to IdKeeper.data", 4)
 	r.Count("accesses to IdKeeper.data", n)
 	// the store of the number into the bundle is in the same region as the map update
@@ -196,6 +196,55 @@ func C14(p *core.Program, r *core.Report) {
 		})
 		r.Check(okVal, "atomic-rmw/"+fname(upd)+"/number-from-counter", "the bundle's sequence number is the counter value", p.Pos(st.Pos()), "", "stored value does not come from IdKeeper.data")
 	}
+	// a counter is forgotten only by the time of its last use, which update
+	// records in the region that assigns the number. (Forgetting by the bundles'
+	// creation time hands out 0 again and again for an application-supplied old
+	// time stamp: equal IDs, and a SendBundle that never finds a free number.)
+	nDel := 0
+	for _, fn := range p.RepoFuncs() {
+		core.EachInstr(fn, func(in ssa.Instruction) {
+			c, ok := in.(*ssa.Call)
+			if !ok {
+				return
+			}
+			b, ok := c.Common().Value.(*ssa.Builtin)
+			if !ok || b.Name() != "delete" || !core.IsField(fieldAddrOfLoad(c.Common().Args[0]), routingPkg, "IdKeeper", "data") {
+				return
+			}
+			nDel++
+			key := c.Common().Args[1]
+			okLU, why := false, "the deletion is not guarded by a comparison of a per-tuple time that IdKeeper.update records"
+			for _, cd := range core.DominatingConds(c.Block()) {
+				bo, ok := cd.V.(*ssa.BinOp)
+				if !ok {
+					continue
+				}
+				for _, opnd := range []ssa.Value{bo.X, bo.Y} {
+					lk, ok := opnd.(*ssa.Lookup)
+					if !ok || !(lk.Index == key || core.SameLoad(lk.Index, key)) {
+						continue
+					}
+					fa := fieldAddrOfLoad(lk.X)
+					owner, field, ok := core.FieldOwner(fa)
+					if !ok || owner.Obj().Name() != "IdKeeper" || field == "data" {
+						continue
+					}
+					// update records the current time under that map in the counter's region
+					for _, mu := range updates {
+						if core.IsField(fieldAddrOfLoad(mu.Map), routingPkg, "IdKeeper", field) {
+							if tc, isCall := core.Strip(mu.Value).(*ssa.Call); isCall && core.NameIs(core.CalleeName(tc), bp7+".DtnTimeNow") {
+								okLU = true
+							}
+						}
+					}
+				}
+			}
+			r.Check(okLU, "keeper-forgets/"+fname(fn)+"/by-last-use", "IdKeeper forgets a (source, creation time) counter only by the time of its last use, recorded by update() together with the number (never by the bundles' own creation time, which an application may choose freely)", p.Pos(c.Pos()), "", why)
+		})
+	}
+	r.Count("deletions from IdKeeper.data", nDel)
+	r.Min("deletions from IdKeeper.data", 1)
+
 	// the counter is kept per (source node, creation time): the key must not contain the sequence number it assigns
 	nit := p.Func(routingPkg, "", "newIdTuple")
 	okSrc, okTime := false, false
@@ -234,7 +283,15 @@ func C14(p *core.Program, r *core.Report) {
 	}
 
 	// increment by exactly one / start at zero
-	for i, mu := range updates {
+	var counterUpdates []*ssa.MapUpdate
+	for _, mu := range updates {
+		if pathEndsWith(mu.Map, "data") {
+			counterUpdates = append(counterUpdates, mu)
+		}
+	}
+	r.Count("updates of the counter map in IdKeeper.update", len(counterUpdates))
+	r.Min("updates of the counter map in IdKeeper.update", 1)
+	for i, mu := range counterUpdates {
 		pl, err := (&symbolizer{sym: func(v ssa.Value) (string, bool) {
 			if ex, ok := v.(*ssa.Extract); ok {
 				if l, ok := ex.Tuple.(*ssa.Lookup); ok && pathEndsWith(l.X, "data") && ex.Index == 0 {
@@ -357,4 +414,12 @@ func isSeqNoAddr(v ssa.Value) bool {
 		return false
 	}
 	return core.TypeIs(ia.X.Type(), bp7, "CreationTimestamp")
+}
+
+// fieldAddrOfLoad: for a load *(&x.f) returns &x.f, otherwise v itself.
+func fieldAddrOfLoad(v ssa.Value) ssa.Value {
+	if u, ok := v.(*ssa.UnOp); ok && u.Op == token.MUL {
+		return u.X
+	}
+	return v
 }
